@@ -443,26 +443,27 @@ type c09Req struct {
 }
 
 type c09Round struct {
-	kind        string // "h1" | "mixed" | "h3forced" | "altsvc"
-	maxConns    int
-	maxIdleHost int
-	maxIdle     int
-	disableKA   bool
-	idleClose   bool
-	closer      bool
-	cloner      bool
-	dump        bool
-	callers     [][]c09Req
+	kind             string // "h1" | "mixed" | "h3forced" | "altsvc"
+	maxConns         int
+	maxIdleHost      int
+	maxIdle          int
+	disableKA        bool
+	idleClose        bool
+	closer           bool
+	cloner           bool
+	dump             bool
+	callers          [][]c09Req
 	concurrentAltSvc bool // Alt-Svc headers under full concurrency (only when the facts say guarded)
 }
 
 type c09Outcome struct {
-	line       string
-	tagsOK     bool
-	unexpected []string
-	stat       map[string]int
-	events     int
-	human      string
+	knownH2Unusable int
+	line            string
+	tagsOK          bool
+	unexpected      []string
+	stat            map[string]int
+	events          int
+	human           string
 }
 
 func (rd *c09Round) effIdlePerHost() int {
@@ -626,7 +627,14 @@ func c09RunRound(t *testing.T, rd *c09Round, guardedAltSvc bool) (out c09Outcome
 			// use (the documented window in client_conn_pool.go CloseIdleConnections).
 			expected := q.plan.abort || (rd.idleClose && q.post) || (rd.closer && q.target == 2)
 			if !expected {
-				unexpected("tag %d %s: unexpected error %v", q.tag, urls[q.target], err)
+				if rd.disableKA && c09IsH2Unusable(err) {
+					// finding C09-3 (classed by lane h2singleuse, which forces the schedule)
+					unexpMu.Lock()
+					out.knownH2Unusable++
+					unexpMu.Unlock()
+				} else {
+					unexpected("tag %d %s: unexpected error %v", q.tag, urls[q.target], err)
+				}
 			}
 			return
 		}
@@ -885,6 +893,10 @@ func TestVerif_C09_stress(t *testing.T) {
 			human += " UNEXPECTED: " + strings.Join(oc.unexpected, "; ")
 		}
 		s.Case(oc.line, "ok", ok, "", len(rd.callers) >= 2 && oc.events > 20, human)
+		if oc.knownH2Unusable > 0 {
+			s.Observe(fmt.Sprintf("round-%d-h2-unusable", i), false, c09ClassH2Unusable, false, human,
+				fmt.Sprintf("%d callers got \"http2: client conn not usable\" under DisableKeepAlives", oc.knownH2Unusable))
+		}
 	}
 	s.Finish()
 }
